@@ -65,7 +65,8 @@ func (noopDialer) DialContext(context.Context, string, string) (netproxy.Conn, e
 	return nil, errors.New("not implemented")
 }
 
-func buildPools(maxN int, log *logrus.Logger) []*pool {
+// buildPools: every ordered pool of <= maxN nodes over the node kinds kinds[lo:hi].
+func buildPools(lo, hi, maxN int, log *logrus.Logger) []*pool {
 	opt := &dialer.GlobalOption{Log: log, CheckInterval: 30 * time.Second}
 	var out []*pool
 	var rec func(cur []int, n int)
@@ -92,7 +93,7 @@ func buildPools(maxN int, log *logrus.Logger) []*pool {
 				mk(cur)
 				return
 			}
-			for k := range kinds {
+			for k := lo; k < hi; k++ {
 				rec(append(cur, k), left-1)
 			}
 		}
@@ -583,6 +584,8 @@ func enumerate(thorough bool) []*def {
 			add("FL:longlists", polMin, l1, l2)
 		}
 	}
+	// FU / FV: the regex dialect over names and subscription tags with non-ASCII characters (unicode.go)
+	uEnumerate(thorough, add)
 	return defs
 }
 
@@ -745,20 +748,38 @@ func main() {
 		maxPool = 4
 		famPool = map[string]int{"F0": 4, "F1": 4, "FP": 4, "F2": 3, "F3": 3, "FA": 3, "FL": 3}
 	}
-	pools := buildPools(maxPool, log)
-	poolsG = pools
+	nBaseKinds := len(kinds)
+	for i, f := range uFields { // leg FU/FV: every field once as a name and once as a subscription tag
+		kinds = append(kinds, nodeKind{f, uFields[(i+1)%len(uFields)]})
+	}
+	pools := buildPools(0, nBaseKinds, maxPool, log)
+	nBasePools := len(pools)
 	poolsUpTo := map[int]int{} // pools are ordered by size: the pools of <= k nodes are a prefix
 	for i, p := range pools {
 		poolsUpTo[len(p.kinds)] = i + 1
 	}
+	const maxPoolU = 2
+	pools = append(pools, buildPools(nBaseKinds, len(kinds), maxPoolU, log)...)
+	poolsG = pools
+	// poolRange: the pools a definition is evaluated on (FU/FV: the pools over the unicode node kinds)
+	poolRange := func(d *def) (lo, hi int) {
+		if f := d.family[:2]; f == "FU" || f == "FV" {
+			return nBasePools, len(pools)
+		}
+		return 0, poolsUpTo[famPool[d.family[:2]]]
+	}
 	defs := enumerate(r.Thorough())
-	r.Set("pools", len(pools))
+	r.Set("pools", nBasePools)
+	r.Set("pools_unicode", len(pools)-nBasePools)
+	r.Set("regex_patterns_unicode_leg", len(uNameVals))
 	r.Set("max_pool_nodes", maxPool)
 	r.Set("group_definitions", len(defs))
+	uRule := fmt.Sprintf("Leg FU/FV (regex dialect on arbitrary characters): every ordered pool of <=%d nodes over %d further node kinds (each of the %d strings %q once as name and once as subtag: CJK letters, full-width and Arabic-Indic digits, ASCII/ideographic/no-break space, NEL, ASCII and non-ASCII connector punctuation, dash, superscript and Roman numerals, a combining mark, a final and an inner newline, surrounding spaces) x every one-condition line name()/subtag(), '!' on/off, with one value out of %d regex values = every pattern [^] item [item] [$], item = atom x quantifier, atoms %q, + %d idiomatic whole patterns + %d patterns that are not valid in the dialect (%q: must be a configuration error), and out of %d exact/keyword values over the same characters (FU); the same conditions un-negated with [add_latency: 5ms] followed by a catch-all line (FV). Reference: the documented meaning of the regexp2-default (.NET) dialect written by hand (\\w=[L Mn Nd Pc], \\d=Nd, \\s=[\\f\\n\\r\\t\\v U+0085 Z], '.'=not \\n, $=end or before a final \\n) and evaluated by Go's regexp over Go's unicode tables. ", maxPoolU, len(uFields), len(uFields), uFields, len(uNameVals), uAtomTexts(), len(uExtras), len(uInvalid), uInvalid, len(uPlainName))
 	r.Rule(fmt.Sprintf("every ordered node pool of <=%d nodes (<=%d for family F2, <=%d for family F3) over %d node kinds (names %q x subtags %q; duplicates by repetition) x every group definition of the families "+
 		"F0 no filter x 16 policies; F1 one line, one condition name()/subtag()/link() with <=2 values over the full value alphabet (exact, keyword:, regex: incl. regexp2-only lookahead and an invalid pattern, unknown key), '!' on/off, x annotation {none, add_latency:5ms, add_latency:x, foo:1, and the two-item lists [5ms,foo:1] [foo:1,5ms] [5ms,x] [x,5ms] [5ms,9ms]}; "+
 		"F2 one line, two conditions over a reduced condition alphabet x single-item annotation; F3 two lines over a reduced line alphabet (single-item annotations); FA two lines over 6 conditions x the full annotation alphabet incl. the two-item lists; FL single lines and ordered pairs of lines over conditions with 6 and 7 alternatives sharing their first five (differing only in the 6th/7th value, valid or invalid) and lines differing only in the second '&&' conjunct, x annotation {none, 5ms}, pools of <=%d nodes; FP every policy (5 names, fixed(i) i in -1..4, fixed(x), bare fixed, bogus, fixed(0,1), fixed(k:0), !fixed(0)) x 6 filter shapes. "+
-		"A case is (definition, pool). distinct_nontrivial = number of distinct (definition, reference outcome) pairs — outcome = set of expected error kinds, or ordered member kinds with the line supplying each annotation — over definitions with >=1 filter line or a non-'min' policy and non-empty pools", maxPool, famPool["F2"], famPool["F3"], len(kinds), names, tags, famPool["FL"]))
+		"%s"+
+		"A case is (definition, pool). distinct_nontrivial = number of distinct (definition, reference outcome) pairs — outcome = set of expected error kinds, or ordered member kinds with the line supplying each annotation — over definitions with >=1 filter line or a non-'min' policy and non-empty pools", maxPool, famPool["F2"], famPool["F3"], nBaseKinds, names, tags, famPool["FL"], uRule))
 
 	if r.ReplayArg != "" {
 		replay(r, defs, pools)
@@ -805,7 +826,10 @@ func main() {
 			okBoth.Add(cOk)
 			errBoth.Add(cErrBoth)
 		}()
-		for pi, p := range pools[:poolsUpTo[famPool[d.family[:2]]]] {
+		pLo, pHi := poolRange(d)
+		uLeg := pLo > 0
+		for pi := pLo; pi < pHi; pi++ {
+			p := pools[pi]
 			cEval++
 			empty := len(p.kinds) == 0
 			// reference
@@ -836,7 +860,11 @@ func main() {
 				}
 				key = 1
 				for i := 0; i < n; i++ {
-					key = key*32 + uint64(p.kinds[members[i]]*3+lineOf[i]+1) + 1
+					if uLeg {
+						key = key*128 + uint64(p.kinds[members[i]]*3+lineOf[i]+1) + 1
+					} else {
+						key = key*32 + uint64(p.kinds[members[i]]*3+lineOf[i]+1) + 1
+					}
 				}
 			}
 			if nontrivialDef && !empty {
